@@ -41,7 +41,11 @@ PInit(root, pc, file, kvroot, cn, vn, fn) ==
    cn |-> cn, vn |-> vn, fn |-> fn,
    (* include files: fs maps a name to [kind |-> "file" | "dir", toks |-> tokens of the file]; *)
    (* inc is the stack of saved (file, line) of the including sources; incq a pending request  *)
-   fs |-> <<>>, inc |-> <<>>, incq |-> [on |-> FALSE, name |-> ""]]
+   fs |-> <<>>, inc |-> <<>>, incq |-> [on |-> FALSE, name |-> ""],
+   (* re-entrant use: a function callback ("eval") parses a named text (fs entry of kind "text") *)
+   (* into an auxiliary context while this parse is running; aux = <<root of that context>> or   *)
+   (* <<>>; auxlog records the outcome of each nested parse; evq is a pending request            *)
+   aux |-> <<>>, auxlog |-> <<>>, evq |-> [on |-> FALSE, name |-> ""]]
 
 Top(ps)        == ps.stack[Len(ps.stack)]
 SetTop(ps, f)  == [ps EXCEPT !.stack[Len(ps.stack)] = f]
@@ -173,7 +177,14 @@ CallFunction(ps, f) ==
       ps1 == [ps EXCEPT !.fn = fn1,
                         !.cblog = Append(@, [k |-> "func", o |-> o.name, v |-> "", vals |-> f.fargs])]
       f1  == ItemDone([f EXCEPT !.fargs = <<>>])
-  IN IF ps.pc.failFunc = fn1 THEN FailD(ps1) ELSE SetTop(ps1, f1)
+  IN IF ps.pc.failFunc = fn1 THEN FailD(ps1)
+     ELSE IF o.fn = "eval"
+       THEN (* the callback parses the named text into the auxiliary context and returns 0    *)
+            (* whatever that parse returned; other uses are outside the model                *)
+            IF Len(f.fargs) # 1 \/ ps.aux = <<>> \/ f.fargs[1] \notin DOMAIN ps.fs THEN Unspec(ps1)
+            ELSE IF ps.fs[f.fargs[1]].kind # "text" THEN Unspec(ps1)
+            ELSE [SetTop(ps1, f1) EXCEPT !.evq = [on |-> TRUE, name |-> f.fargs[1]]]
+     ELSE SetTop(ps1, f1)
 
 (* ------------------------------------------------------------------ *)
 (* discard sub-parser for undeclared items                             *)
@@ -334,7 +345,7 @@ PStep(ps, t) ==
 (* ------------------------------------------------------------------ *)
 MaxIncludeDepth == 10
 
-RECURSIVE PRun(_, _), PStepI(_, _)
+RECURSIVE PRun(_, _), PStepI(_, _), EnterEval(_, _)
 EnterInclude(p, name) ==
   IF Len(p.inc) >= MaxIncludeDepth THEN FailD(p)                       \* includes nested too deeply
   ELSE IF name \notin DOMAIN p.fs THEN FailD(p)                        \* missing / not found in the search path
@@ -345,10 +356,25 @@ EnterInclude(p, name) ==
        IN IF p3.status # "more" THEN p3                                \* rejected inside the file
           ELSE [p3 EXCEPT !.file = saved.file, !.line = saved.line, !.inc = SubSeq(@, 1, Len(@) - 1)]
 
+(* a parse started from inside a callback: its own file name and line numbering, the      *)
+(* callback counters of the process, and the include depth reached so far as its base;     *)
+(* whatever happens in it - also a failure inside an include of its own - the interrupted  *)
+(* parse goes on where it was, with its include levels still open                          *)
+EnterEval(p, name) ==
+  LET q0 == [PInit(p.aux[1], p.pc, "buf", FALSE, p.cn, p.vn, p.fn) EXCEPT !.fs = p.fs, !.inc = p.inc]
+      q  == PRun(q0, p.fs[name].toks)
+  IN IF q.status \notin {"ok", "fail"} THEN Unspec(p)
+     ELSE [p EXCEPT !.aux = <<RootOf(q)>>,
+                    !.auxlog = Append(@, [status |-> q.status, ndiag |-> Len(q.diags) + q.ndep]),
+                    !.cn = q.cn, !.vn = q.vn, !.fn = q.fn,
+                    !.cblog = @ \o q.cblog, !.freed = @ \o q.freed]
+
 PStepI(ps, t) ==
   LET p1 == PStep(ps, t)
   IN IF p1.status = "more" /\ p1.incq.on
        THEN EnterInclude([p1 EXCEPT !.incq = [on |-> FALSE, name |-> ""]], p1.incq.name)
+     ELSE IF p1.status = "more" /\ p1.evq.on
+       THEN EnterEval([p1 EXCEPT !.evq = [on |-> FALSE, name |-> ""]], p1.evq.name)
        ELSE p1
 
 PRun(ps, toks) == IF toks = <<>> THEN ps ELSE PRun(PStepI(ps, Head(toks)), Tail(toks))
